@@ -3,6 +3,12 @@
 Same (rulebook, old, new) spaces as C01 (standard diff logics: default / ordered / rewrite).  For every pair the
 real make_diff / strip_unchanged / formatter.diff / gen_pre_as_diff(make_pre(.)) are compared with a path-wise
 reference computed from the two configs and the rulebook structure.
+
+Part E (end to end): for every sample of the shipped corpus, the production worker of `annet diff` (annet.diff.worker, run
+through mc/e2e.py exactly as annet.api.diff hands it to the pool) with the shipped rulebooks: every row the generators
+produce and the device lacks is reported as added, every device row the generators do not produce as removed (rows the
+rulebook knows), nothing that both sides hold is reported added or removed unless `annet patch`'s diff of the same
+run says so too, and the two commands agree on what is added and removed - with and without --acl-safe.
 """
 from __future__ import annotations
 
@@ -58,10 +64,11 @@ def all_families(tier):
 
 def setup():
     env.setup()
+    env.install_harness_deploy_driver()
 
 
 def blocks(tier, seed):
-    out = []
+    out = [{"part": "E", "i": i, "of": 8} for i in range(8)]
     for fi, (name, rbs) in enumerate(all_families(tier)):
         for v in vendors(tier):
             step = 6 if tier == "quick" else 3
@@ -324,7 +331,25 @@ def op_kinds(diff, acc, depth=0):
     return acc
 
 
+def run_e2e(block, ctx):
+    from mc import corpus
+    S = corpus.samples()
+    for si in range(block["i"], len(S), block["of"]):
+        for acl_safe in (0, 1):
+            if ctx.expired():
+                return
+            label, n = check_e2e(S[si], acl_safe, ctx.violation)
+            ctx.evals += 3
+            ctx.states += 1
+            if n > 1:
+                ctx.nontrivial += 1
+            ctx.outcomes["E:%s" % label] += 1
+            ctx.extra["e2e_runs"] += 1
+
+
 def run_block(block, ctx):
+    if block.get("part") == "E":
+        return run_e2e(block, ctx)
     fams = all_families(ctx.tier)
     name, rbs = fams[block["family"]]
     vendor = block["vendor"]
@@ -355,7 +380,76 @@ def run_block(block, ctx):
                         "example_old": U[len(U) // 3], "example_new": U[-1]})
 
 
+def check_e2e(sample, acl_safe, report):
+    from annet import patching, rulebook
+    from mc import e2e
+    from checks.c09_cmdstream import split_new
+    case = {"part": "E", "sample": sample["name"], "acl_safe": acl_safe}
+    unsafe, safe = split_new(sample["new"])
+    with e2e.Session(sample["model"], sample["old"], [(unsafe, False), (safe, True)]) as ss:
+        if not ss.representable:
+            return "device-text-not-representable", 0
+        try:
+            d = ss.diff(acl_safe)
+        except Exception as e:  # noqa
+            report({"kind": "e2e-diff-worker-raises", "exc": type(e).__name__}, case, repr(e)[:300])
+            return "raises", 0
+        try:
+            pd = ss.patch_diff(acl_safe)
+        except Exception as e:  # noqa   (vendor logic of the patch side may refuse a half configuration: an outcome)
+            pd = None
+        hw = ss.dev.hw
+        from annet import implicit
+        from annet.annlib.lib import merge_dicts
+        irules = implicit.compile_rules(ss.dev)
+    if d is None or not isinstance(d, list):
+        report({"kind": "e2e-diff-worker-result", "type": type(d).__name__}, case, repr(d)[:200])
+        return "shape", 0
+    got = e2e.flatten_diff(d)
+    new_forest = safe if acl_safe else e2e.union_forest(unsafe, safe)
+    # both sides are completed with the vendor's implicit defaults before they are compared (C17 judges the completion)
+    o_tree, n_tree = env.to_odict(sample["old"]), env.to_odict(new_forest)
+    o_tree = merge_dicts(o_tree, implicit.config(o_tree, irules))
+    n_tree = merge_dicts(n_tree, implicit.config(n_tree, irules))
+    O, N = e2e.paths_of(o_tree), e2e.paths_of(n_tree)
+    # rows the shipped rulebook knows (others are dropped from both sides by design): those of the unstripped diff
+    full = e2e.flatten_diff(patching.make_diff(o_tree, n_tree, rulebook.get_rulebook(hw), []))
+    n = 0
+    for p in sorted(N - O):
+        if p in full and full[p] == "added" and got.get(p) != "added":
+            report({"kind": "e2e-diff-misses-added-row", "acl_safe": acl_safe}, case, "row %r is new, annet diff says %r" % (p, got.get(p)))
+            break
+    for p in sorted(O - N):
+        if p in full and full[p] == "removed" and got.get(p) != "removed":
+            report({"kind": "e2e-diff-misses-removed-row", "acl_safe": acl_safe}, case, "row %r is gone, annet diff says %r" % (p, got.get(p)))
+            break
+    for p, op in sorted(got.items()):
+        n += op in ("added", "removed")
+        if op in ("added", "removed") and p in O and p in N and full.get(p) not in ("added", "removed"):
+            report({"kind": "e2e-diff-invents-change", "op": op, "acl_safe": acl_safe}, case,
+                   "row %r is on the device and generated, annet diff says %s" % (p, op))
+            break
+        if op == "added" and p in O and p not in N or op == "removed" and p in N and p not in O:
+            report({"kind": "e2e-diff-wrong-direction", "acl_safe": acl_safe}, case, "row %r: %s" % (p, op))
+            break
+    if pd is not None and len(pd) == 1 and pd[0][0] is not None:
+        other = e2e.flatten_diff(patching.strip_unchanged(pd[0][0]))
+        a = {p: o for p, o in got.items() if o in ("added", "removed")}
+        b = {p: o for p, o in other.items() if o in ("added", "removed")}
+        if a != b:
+            only = sorted(set(a.items()) ^ set(b.items()))[:4]
+            report({"kind": "e2e-diff-and-patch-disagree", "acl_safe": acl_safe}, case,
+                   "annet diff and annet patch's diff differ on added/removed rows: %r" % (only,))
+    return "ok", n
+
+
 def replay(case):
+    if case.get("part") == "E":
+        from mc import corpus
+        out = []
+        check_e2e(next(x for x in corpus.samples() if x["name"] == case["sample"]), case["acl_safe"],
+                  lambda sig, c, d="": out.append((sig, d)))
+        return out
     rules = [refrb.Rule.from_json(d) for d in case["rb"]]
     rbk, _ = compile_rb(rules, case["vendor"])
     out = []
